@@ -9,6 +9,7 @@ use serde::{Deserialize, Serialize};
 use serde_json::{json, Value};
 
 use crate::arenasim::{self, ArenaReplay, ArenaStats};
+use crate::pwlsim::{self, PwlReplay, PwlStats, Scenario};
 use crate::common::{env_u64, run_batch, Batch, Violation};
 use crate::prng::mix;
 
@@ -182,6 +183,8 @@ pub fn worker(id: &str, tier: &str) -> ExitCode {
     let seed = env_u64("VERIF_SEED").unwrap_or(DEFAULT_SEED);
     match id {
         "C12" => worker_c12(tier, seed),
+        "C03" | "C04" | "C05" | "C06" => worker_history(id, tier, seed),
+        "C11" => worker_c11(tier, seed),
         _ => {
             eprintln!("unknown property {id}");
             ExitCode::from(2)
@@ -388,6 +391,26 @@ pub fn replay_file(path: &str) -> ExitCode {
         }
     };
     match v["simulator"].as_str() {
+        Some("pwlsim") => {
+            let rep: PwlReplay = match serde_json::from_value(v) {
+                Ok(r) => r,
+                Err(e) => {
+                    eprintln!("cannot parse pwlsim replay: {e}");
+                    return ExitCode::from(2);
+                }
+            };
+            let res = pwlsim::run_scenario(&rep.scenario);
+            let got = match &rep.expected {
+                Some(e) => res
+                    .violations
+                    .iter()
+                    .find(|v| v.property == e.property && v.class == e.class && v.site == e.site)
+                    .or_else(|| res.violations.iter().find(|v| v.property == rep.property))
+                    .cloned(),
+                None => res.violations.iter().find(|v| v.property == rep.property).cloned(),
+            };
+            finish_replay(&rep.property, path, got, rep.expected)
+        }
         Some("arenasim") => {
             let rep: ArenaReplay = serde_json::from_value(v).expect("arena replay");
             let res = arenasim::replay_history(&rep.property, rep.k, rep.root_value, &rep.history);
@@ -427,4 +450,372 @@ pub fn finish_replay(property: &str, path: &str, got: Option<Violation>, expecte
             ExitCode::SUCCESS
         }
     }
+}
+
+// ---------------------------------------------------------------------------
+// C03 - C06: operation histories with the LP seam in real / legal mode
+// ---------------------------------------------------------------------------
+
+fn stats_json(st: &PwlStats) -> Value {
+    let mut v = serde_json::to_value(st).unwrap();
+    v["distinct_states_reached"] = json!(st.state_hashes.len());
+    v
+}
+
+fn zero_probe_warnings(st: &PwlStats, wanted: &[&str]) -> Vec<String> {
+    let mut out = Vec::new();
+    for w in wanted {
+        let hit = st.probes.get(*w).copied().unwrap_or(0) + st.elim_counter.get(*w).copied().unwrap_or(0);
+        if hit == 0 {
+            out.push(format!("probe '{w}' was never hit in this batch"));
+        }
+    }
+    out
+}
+
+struct Found {
+    run_index: u64,
+    violation: Violation,
+    scenario: Scenario,
+}
+
+fn minimise_and_report(id: &str, seed: u64, tier: &str, firsts: BTreeMap<String, Found>) -> (Reported, bool) {
+    let budget = if tier == "thorough" { 600 } else { 250 };
+    let mut found: Vec<(Violation, PathBuf)> = Vec::new();
+    let mut harness_error = false;
+    for (_key, f) in firsts {
+        let (min_sc, min_v) = pwlsim::minimize(&f.scenario, &f.violation, budget);
+        let rep = PwlReplay {
+            property: id.into(),
+            simulator: "pwlsim".into(),
+            seed,
+            run_index: f.run_index,
+            scenario: min_sc,
+            expected: Some(min_v.clone()),
+        };
+        let path = replay_dir().join(format!("{id}-{seed}-{}-{}-{}.json", f.run_index, min_v.class, min_v.site));
+        std::fs::write(&path, serde_json::to_string_pretty(&rep).unwrap()).expect("write replay");
+        if !confirm_replay_fresh(&path) {
+            eprintln!("harness error: replay {} does not reproduce in a fresh process", path.display());
+            harness_error = true;
+        }
+        found.push((min_v, path));
+    }
+    (report_lines(&found), harness_error)
+}
+
+fn worker_history(id: &str, tier: &str, seed: u64) -> ExitCode {
+    let default_runs = match (id, tier) {
+        (_, "thorough") => 4_000_000,
+        _ => 120_000,
+    };
+    let runs = env_u64("VERIF_RUNS").unwrap_or(default_runs);
+    let batch = Batch {
+        runs,
+        threads: threads(),
+        max_wall: Duration::from_secs(if tier == "thorough" { 5400 } else { 900 }),
+        run_timeout: Duration::from_secs(120),
+    };
+    #[derive(Default)]
+    struct Acc {
+        stats: PwlStats,
+        firsts: BTreeMap<String, Found>,
+        n_viol_runs: u64,
+        other_props: BTreeMap<String, u64>,
+        samples: Vec<Value>,
+    }
+    let crumbs = CrumbWriter::new(id);
+    let out = run_batch(&batch, Acc::default, |run_index, acc: &mut Acc| {
+        crumbs.write(run_index, seed);
+        let rs = run_seed(seed, id, run_index);
+        let res = pwlsim::seeded_history_run(id, rs);
+        let mut st = res.stats;
+        for (k, v) in crate::logprobe::take() {
+            *st.probes.entry(k.to_string()).or_default() += v;
+        }
+        acc.stats.merge(st);
+        if run_index < 2 {
+            acc.samples.push(json!({"run_index": run_index, "run_seed": rs, "scenario": res.scenario, "steps_executed": res.steps_done}));
+        }
+        let mut mine = false;
+        for v in res.violations {
+            if v.property == id {
+                mine = true;
+                let key = v.key();
+                let better = acc.firsts.get(&key).map(|f| run_index < f.run_index).unwrap_or(true);
+                if better {
+                    acc.firsts.insert(key, Found { run_index, violation: v, scenario: res.scenario.clone() });
+                }
+            } else {
+                *acc.other_props.entry(v.property.clone()).or_default() += 1;
+            }
+        }
+        if mine {
+            acc.n_viol_runs += 1;
+        }
+        crumbs.clear();
+    });
+    let mut stats = PwlStats::default();
+    let mut firsts: BTreeMap<String, Found> = BTreeMap::new();
+    let mut n_viol_runs = 0;
+    let mut other_props: BTreeMap<String, u64> = BTreeMap::new();
+    let mut samples = Vec::new();
+    for a in out.accs {
+        stats.merge(a.stats);
+        n_viol_runs += a.n_viol_runs;
+        samples.extend(a.samples);
+        for (k, v) in a.other_props {
+            *other_props.entry(k).or_default() += v;
+        }
+        for (k, f) in a.firsts {
+            let better = firsts.get(&k).map(|g| f.run_index < g.run_index).unwrap_or(true);
+            if better {
+                firsts.insert(k, f);
+            }
+        }
+    }
+    samples.sort_by_key(|s| s["run_index"].as_u64());
+    let (rep, harness_error) = minimise_and_report(id, seed, tier, firsts);
+
+    let wall = out.wall.as_secs_f64();
+    let warnings = zero_probe_warnings(&stats, &["parent_sol_inherited", "mirror_heuristic_hits", "cached_state", "lps_infeasible"]);
+    for w in &warnings {
+        eprintln!("warning: {w}");
+    }
+    if stats.unconfirmed_disagreements > 0 || stats.nonpruning_mismatches > 0 {
+        eprintln!(
+            "note: {} model disagreements could not be confirmed on the real code (not reported), {} refinement mismatches on non-pruning steps (properties not claimed here)",
+            stats.unconfirmed_disagreements, stats.nonpruning_mismatches
+        );
+    }
+    let rule = "one evaluation = one seeded run: swarm knobs, a pool of 1-3 trees built by the library's constructors, \
+                a history of 2-8 operations generated online from the reference model's dimensions, LP seam in real or legal mode; \
+                all oracles after every step. distinct = distinct hash of (mode, constructor kinds, operation sequence, set of \
+                (shape, node kind, cache state kind) hashes reached); non-trivial = at least one pruning step of the run \
+                actually removed nodes (the result has fewer nodes than the unpruned reference or than before).";
+    let ev = json!({
+        "property_id": id, "tier": tier, "seed": seed, "level": "exploration",
+        "coverage": {
+            "evaluations": stats.runs,
+            "distinct_nontrivial": stats.nontrivial_hashes.len(),
+            "rule": rule,
+            "samples": samples,
+            "runs_per_hour": if wall > 0.0 { (stats.runs as f64 / wall * 3600.0) as u64 } else { 0 },
+            "simulated_time": "none: the only clocks are the step counter and the LP call counter",
+            "real_vs_stub": "affinitree, minilp, ndarray, slab run real code; the seam post-processes the real backend's answer (real mode: pass-through; legal mode: a different exactly-feasible witness)",
+            "fault_kinds": "none injected in this check (legal alternatives only); faults are C11",
+            "cut_short_by_wall_clock": out.cut_short,
+            "violating_runs": n_viol_runs,
+            "violations_of_other_properties_seen": other_props,
+            "known_findings_hit": rep.known,
+            "zero_probe_warnings": warnings,
+            "detail": stats_json(&stats),
+        },
+        "assumptions": [
+            "exactness regime: small-integer / dyadic data, dim <= 3; multiplying operations only on operands whose coefficients are k*2^-12 below 2^12 so that every f64 product and sum is exact",
+            "tolerance band tau = 1e-6 on the l1-width of a region: only FAT regions count for function changes, only EMPTY ones for missed pruning",
+            "reference model operations (compose, lift, apply) are trusted; a disagreement is reported only after the real code gives two different answers at a concrete input"
+        ],
+        "wall_s": wall,
+        "violations": rep.violations,
+    });
+    write_evidence(id, &ev);
+    eprintln!(
+        "{id} {tier}: {} runs, {} steps, {} LP calls, {} distinct non-trivial, {} states, {:.1}s, violations={} known={}",
+        stats.runs, stats.steps, stats.lp_calls, stats.nontrivial_hashes.len(), stats.state_hashes.len(), wall, rep.violations, rep.known
+    );
+    if harness_error {
+        return ExitCode::from(2);
+    }
+    if rep.violations > 0 { ExitCode::from(1) } else { ExitCode::SUCCESS }
+}
+
+fn write_evidence(id: &str, ev: &Value) {
+    let dir = verif_dir().join("evidence");
+    let _ = std::fs::create_dir_all(&dir);
+    std::fs::write(dir.join(format!("{id}.json")), serde_json::to_string_pretty(ev).unwrap()).expect("write evidence");
+}
+
+/// Per-thread breadcrumb files naming the run in flight (read by the supervisor if the worker dies).
+struct CrumbWriter {
+    dir: PathBuf,
+}
+
+impl CrumbWriter {
+    fn new(id: &str) -> CrumbWriter {
+        let dir = crumb_dir(id);
+        let _ = std::fs::remove_dir_all(&dir);
+        let _ = std::fs::create_dir_all(&dir);
+        CrumbWriter { dir }
+    }
+    fn path(&self) -> PathBuf {
+        self.dir.join(format!("{:?}", std::thread::current().id()).replace(['(', ')'], "_"))
+    }
+    fn write(&self, run_index: u64, seed: u64) {
+        let _ = std::fs::write(self.path(), format!("seed={seed} run_index={run_index}"));
+    }
+    fn clear(&self) {
+        let _ = std::fs::write(self.path(), "");
+    }
+}
+
+// ---------------------------------------------------------------------------
+// C11: fault scenarios
+// ---------------------------------------------------------------------------
+
+fn worker_c11(tier: &str, seed: u64) -> ExitCode {
+    let id = "C11";
+    let thorough = tier == "thorough";
+    let runs = env_u64("VERIF_RUNS").unwrap_or(if thorough { 10_000 } else { 300 });
+    let batch = Batch {
+        runs,
+        threads: threads(),
+        max_wall: Duration::from_secs(if thorough { 5400 } else { 900 }),
+        run_timeout: Duration::from_secs(300),
+    };
+    #[derive(Default)]
+    struct Acc {
+        stats: PwlStats,
+        firsts: BTreeMap<String, Found>,
+        scenarios: u64,
+        discarded: u64,
+        executions: u64,
+        single: u64,
+        pairs: u64,
+        sampled: u64,
+        baseline_calls: u64,
+        violating_executions: u64,
+        samples: Vec<Value>,
+        scenario_hashes: std::collections::BTreeSet<u64>,
+    }
+    let crumbs = CrumbWriter::new(id);
+    let out = run_batch(&batch, Acc::default, |run_index, acc: &mut Acc| {
+        crumbs.write(run_index, seed);
+        let rs = run_seed(seed, id, run_index);
+        let res = pwlsim::seeded_fault_scenario(rs, thorough);
+        let mut st = res.stats;
+        for (k, v) in crate::logprobe::take() {
+            *st.probes.entry(k.to_string()).or_default() += v;
+        }
+        acc.stats.merge(st);
+        acc.scenarios += 1;
+        if res.discarded {
+            acc.discarded += 1;
+        } else if res.baseline_calls > 0 {
+            let mut h = crate::common::Fnv::new();
+            h.str(&serde_json::to_string(&res.base.history.iter().map(|o| o.name()).collect::<Vec<_>>()).unwrap());
+            h.u64(res.baseline_calls as u64);
+            for c in &res.base.pool {
+                h.str(c.short());
+            }
+            acc.scenario_hashes.insert(h.finish());
+        }
+        acc.executions += res.executions;
+        acc.single += res.enumerated_single;
+        acc.pairs += res.enumerated_pairs;
+        acc.sampled += res.sampled_plans;
+        acc.baseline_calls += res.baseline_calls as u64;
+        if acc.samples.len() < 2 && !res.discarded && res.baseline_calls > 0 && run_index < 64 {
+            acc.samples.push(json!({"run_index": run_index, "run_seed": rs, "scenario": res.base, "lp_calls_of_faulty_suffix_when_fault_free": res.baseline_calls,
+                "single_fault_plans_enumerated": res.enumerated_single}));
+        }
+        for (sc, vs) in res.violating {
+            acc.violating_executions += 1;
+            for v in vs {
+                if v.property != id {
+                    continue;
+                }
+                let key = v.key();
+                let better = acc.firsts.get(&key).map(|f| run_index < f.run_index).unwrap_or(true);
+                if better {
+                    acc.firsts.insert(key, Found { run_index, violation: v, scenario: sc.clone() });
+                }
+            }
+        }
+        crumbs.clear();
+    });
+    let mut a = Acc::default();
+    for b in out.accs {
+        a.stats.merge(b.stats);
+        a.scenarios += b.scenarios;
+        a.discarded += b.discarded;
+        a.executions += b.executions;
+        a.single += b.single;
+        a.pairs += b.pairs;
+        a.sampled += b.sampled;
+        a.baseline_calls += b.baseline_calls;
+        a.violating_executions += b.violating_executions;
+        a.samples.extend(b.samples);
+        a.scenario_hashes.extend(b.scenario_hashes);
+        for (k, f) in b.firsts {
+            let better = a.firsts.get(&k).map(|g| f.run_index < g.run_index).unwrap_or(true);
+            if better {
+                a.firsts.insert(k, f);
+            }
+        }
+    }
+    a.samples.sort_by_key(|s| s["run_index"].as_u64());
+    a.samples.truncate(2);
+    let stats = a.stats;
+    let (rep, harness_error) = minimise_and_report(id, seed, tier, a.firsts);
+    let wall = out.wall.as_secs_f64();
+    let warnings = zero_probe_warnings(
+        &stats,
+        &["witness_repair_succeeded", "witness_repair_failed", "solver_error_in_elimination", "solver_error_in_edge_test",
+          "unbounded_in_edge_test", "parent_indeterminate", "parent_feasible_without_witness", "lps_error"],
+    );
+    for w in &warnings {
+        eprintln!("warning: {w}");
+    }
+    let rule = "one evaluation = one execution of a scenario's pruning suffix under one fault plan. A scenario = seeded pool + \
+                fault-free prefix history (0-3 steps, populates caches) + suffix of 1-3 pruning steps. Per scenario: the fault-free \
+                baseline, EVERY (LP call position of the baseline x fault kind of the 12-entry menu) as a single-fault plan \
+                (exhaustive for that scenario), in the thorough tier every pair of positions for <= 12 calls, plus seeded multi-fault \
+                plans. distinct_nontrivial = distinct scenarios (hash of constructor kinds, operation sequence, number of LP calls) \
+                whose suffix makes at least one LP call.";
+    let ev = json!({
+        "property_id": id, "tier": tier, "seed": seed, "level": "fault_enumeration",
+        "coverage": {
+            "evaluations": a.executions,
+            "distinct_nontrivial": a.scenario_hashes.len(),
+            "rule": rule,
+            "samples": a.samples,
+            "exhaustive": false,
+            "exhaustive_note": "single-fault plans are enumerated exhaustively per scenario; scenarios themselves are sampled",
+            "scenarios": a.scenarios,
+            "scenarios_discarded": a.discarded,
+            "single_fault_plans_enumerated": a.single,
+            "pair_plans_enumerated": a.pairs,
+            "multi_fault_plans_sampled": a.sampled,
+            "baseline_lp_calls_total": a.baseline_calls,
+            "fault_kinds_configured": stats.faults_configured,
+            "fault_kinds_fired": stats.faults_fired,
+            "fault_kinds_fired_and_changed_the_answer": stats.faults_fired_changed_answer,
+            "distinct_fault_contexts": stats.fault_contexts.len(),
+            "executions_per_hour": if wall > 0.0 { (a.executions as f64 / wall * 3600.0) as u64 } else { 0 },
+            "simulated_time": "none: the only clocks are the step counter and the LP call counter",
+            "real_vs_stub": "affinitree, minilp, ndarray, slab run real code; the fault layer is an interposer on Polytope::solve_linprog that replaces the real backend's answer per the plan. The HiGHS status mapping sits below the seam and is not exercised.",
+            "cut_short_by_wall_clock": out.cut_short,
+            "violating_executions": a.violating_executions,
+            "known_findings_hit": rep.known,
+            "zero_probe_warnings": warnings,
+            "detail": stats_json(&stats),
+        },
+        "assumptions": [
+            "a wrong 'Infeasible' for a feasible polytope is not a fault kind: no caller can defend against it and the property does not list it",
+            "a Feasible verdict without witness on an empty region (Unbounded => Feasible by design) is not counted as unsound: its only effect is less pruning",
+            "exactness regime and tolerance band as for C03-C06"
+        ],
+        "wall_s": wall,
+        "violations": rep.violations,
+    });
+    write_evidence(id, &ev);
+    eprintln!(
+        "C11 {tier}: {} scenarios ({} discarded), {} executions ({} single-fault, {} pairs, {} sampled), {:.1}s, violations={} known={}",
+        a.scenarios, a.discarded, a.executions, a.single, a.pairs, a.sampled, wall, rep.violations, rep.known
+    );
+    if harness_error {
+        return ExitCode::from(2);
+    }
+    if rep.violations > 0 { ExitCode::from(1) } else { ExitCode::SUCCESS }
 }
